@@ -8,6 +8,7 @@ from protocol_code_generator.type.string_type import StringType
 from protocol_code_generator.type.struct_type import StructType
 from protocol_code_generator.util.number_utils import try_parse_int
 from protocol_code_generator.util.xml_utils import (
+    get_boolean_attribute,
     get_instructions,
     get_required_string_attribute,
     get_string_attribute,
@@ -205,7 +206,7 @@ class TypeFactory:
             # All fields in a fixed-size struct must also be fixed-size
             return None
 
-        if protocol_field.get("optional"):
+        if get_boolean_attribute(protocol_field, "optional"):
             # Nothing can be optional in a fixed-size struct
             return None
 
@@ -229,11 +230,11 @@ class TypeFactory:
             # All arrays in a fixed-size struct must also be fixed-size
             return None
 
-        if protocol_array.get("optional"):
+        if get_boolean_attribute(protocol_array, "optional"):
             # Nothing can be optional in a fixed-size struct
             return None
 
-        if protocol_array.get("delimited"):
+        if get_boolean_attribute(protocol_array, "delimited"):
             # It's possible to omit data or insert garbage data at the end of each chunk
             return None
 
